@@ -90,6 +90,9 @@ type FieldInfo struct {
 	HasDict      bool
 	Terms        []Term // ascending term order (FST order)
 	HasDocValues bool
+	DVStart      uint64 // file offsets of the doc-value block (when HasDocValues)
+	DVEnd        uint64
+	DictOffset   uint64              // file offset of the dictionary (0 = none)
 	DocValues    map[uint64][][]byte // doc -> terms in stored order (split on 0xff)
 	HasThesaurus bool
 	Thesaurus    []ThesTerm // ascending term order
@@ -432,8 +435,10 @@ func (d *decoder) textSection(fi *FieldInfo, addr uint64) error {
 			return fmt.Errorf("doc values [%d,%d): %w", dvStart, dvEnd, err)
 		}
 		fi.HasDocValues = true
+		fi.DVStart, fi.DVEnd = dvStart, dvEnd
 		fi.DocValues = dv
 	}
+	fi.DictOffset = dictOff
 	if dictOff != 0 {
 		terms, err := d.dictionary(dictOff)
 		if err != nil {
